@@ -95,3 +95,33 @@ func zzC19_Summary_N3() {
 		"C19/summary: --ready counts equal the ready tasks")
 	zzReach("end")
 }
+
+// ---- row layout on display widths (strings abstracted to their widths) ----
+
+// Summaries used by the layout unit (natively the real functions run):
+// visibleLen -> the width term; stripANSICodes -> uninterpreted; truncateToWidth -> CUT with the
+// contract "" for w <= 0, otherwise some string at most w columns wide.
+func zzVisLenCut(s string) int   { return zzWidth(s) }
+func zzStripCut(s string) string { return zzStrip(s) }
+func zzTruncCut(s string, maxWidth int) string {
+	if maxWidth <= 0 {
+		return ""
+	}
+	r := zzTruncUF(s, maxWidth)
+	zzAssume(zzWidth(r) <= maxWidth)
+	return r
+}
+
+// One row of the tree for ANY prefix / connector / icon / id / title / blocker text widths and any
+// terminal width 0..400: the renderer never panics (strings.Repeat with a negative count, index,
+// nil), and the id never starts left of its column.
+func zzC19_TreeLine() {
+	zzWidthMode()
+	task := &Task{ID: zzString("id"), IsEpic: zzBool("isEpic"), State: zzString("state")}
+	tw := zzInt("termWidth")
+	zzAssume(tw >= 0 && tw <= 400)
+	zzAssume(zzWidth(task.ID) == len(task.ID)) // ids are ASCII
+	line := formatTreeLine(zzString("prefix"), zzString("connector"), zzBool("showConnector"), zzString("icon"), task.ID, zzString("title"), nil, zzString("blocker"), task, zzBool("ready"), zzBool("color"), tw)
+	zzAssert(zzWidth(line) >= tw-idRightMargin || tw < idRightMargin+idMinGap+len(task.ID), "C19/layout: the id never ends left of its right-hand column")
+	zzReach("end")
+}
